@@ -669,6 +669,42 @@ pub fn run(ctx: &mut Ctx) {
             }
             }
         }
+        // the legacy form CUT SHORT, for every declared length (h << 8 | s): with the flag clear the answer is "more data",
+        // never a value, even when the two length bytes read as a registered algorithm pair and the first bytes of the
+        // signature read as a length that would fit
+        {
+            let h = idx as u8;
+            let mut buf = vec![0u8; 2 + 65535];
+            buf[0] = h;
+            for s in 0..=255u8 {
+                buf[1] = s;
+                let l = ((h as usize) << 8) | s as usize;
+                if l < 5 {
+                    continue;
+                }
+                for (v, inner) in [[0u8, 0], [0, 1], [0, 2], [0, 16], [1, 0]].iter().enumerate() {
+                    buf[2] = inner[0];
+                    buf[3] = inner[1];
+                    for avail in [4usize, 5, 6, 20, l / 2, l - 1] {
+                        if avail >= l || avail < 2 || (v > 0 && avail > 300) {
+                            continue;
+                        }
+                        let input = &buf[..2 + avail];
+                        let r = parse_content_and_signature(input, take_k(0), false);
+                        ctx.eval();
+                        ctx.count("cas.legacy-cut-short");
+                        if r.is_ok() {
+                            ctx.violation(
+                                "c13:parse_content_and_signature:legacy-form-cut-short-yields-a-value".into(),
+                                json!({"declared_signature_len": l, "signature_bytes_available": avail, "first_signature_bytes": inner, "outcome": classify(&r).show(), "input_hex": hex_short(input)}),
+                            );
+                        }
+                    }
+                }
+                buf[2] = 0;
+                buf[3] = 0;
+            }
+        }
         ctx.shape(&("cas-cross", idx / 8));
     });
     ctx.mark_exhaustive("parse_content_and_signature: all 65536 algorithm pairs under both flag values");
